@@ -6,8 +6,10 @@ use crate::prng::Rng;
 use crate::util::{hex, small_id, Toks};
 use crate::{OracleOut, Stream, Tier};
 use std::collections::BTreeMap;
+use std::path::Path;
 use warp_core::causal_wal::{
-    recover_in_memory_store, ExternalActionCoordinatorCapability, InMemoryWalStore, Lsn, PayloadCodecId,
+    recover_filesystem_store, recover_in_memory_store, ExternalActionCoordinatorCapability, FilesystemWalFaultPlan,
+    FilesystemWalFaultTarget, FilesystemWalStore, InMemoryWalStore, Lsn, PayloadCodecId,
     PayloadSchemaId, RecoveryAccessMode, WalDurabilityMode, WalFrame, WalManifest, WalSegmentId, WalSegmentSeal,
     WalStoreError, WalStorePort, WalTransactionCommit, WalTransactionId, WalTransactionKind, WriterEpoch,
     WriterEpochId, WriterEpochRequest,
@@ -25,6 +27,7 @@ use warp_core::{Hash, WorldlineId};
 pub fn streams() -> Vec<Stream> {
     vec![
         Stream { name: "C17.ext", gen: gen_ext, imp: imp_ext, oracle: oracle_ext },
+        Stream { name: "C17.fs", gen: gen_fs, imp: imp_fs, oracle: oracle_fs },
         Stream { name: "C17.new", gen: gen_new, imp: imp_new, oracle: oracle_new },
     ]
 }
@@ -112,19 +115,212 @@ fn epoch_id() -> WriterEpochId {
 
 fn new_store() -> Result<FaultStore, String> {
     let mut inner = InMemoryWalStore::new();
-    inner
-        .acquire_writer_epoch(WriterEpochRequest {
-            epoch_id: epoch_id(),
-            storage_fencing_token: digest("c17:fencing"),
-            process_identity: digest("c17:process"),
-            host_identity: digest("c17:host"),
-            started_at_lsn: Lsn::from_raw(0),
-            previous_epoch_id: None,
-            previous_epoch_final_commit_digest: None,
-            lease_or_lock_evidence: digest("c17:lease"),
-        })
-        .map_err(|e| format!("epoch: {e:?}"))?;
+    inner.acquire_writer_epoch(epoch_request()).map_err(|e| format!("epoch: {e:?}"))?;
     Ok(FaultStore { inner, fault: 0 })
+}
+
+fn epoch_request() -> WriterEpochRequest {
+    WriterEpochRequest {
+        epoch_id: epoch_id(),
+        storage_fencing_token: digest("c17:fencing"),
+        process_identity: digest("c17:process"),
+        host_identity: digest("c17:host"),
+        started_at_lsn: Lsn::from_raw(0),
+        previous_epoch_id: None,
+        previous_epoch_final_commit_digest: None,
+        lease_or_lock_evidence: digest("c17:lease"),
+    }
+}
+
+/// the REAL `FilesystemWalStore` on a scratch directory; faults through its own `FilesystemWalFaultPlan`
+/// (AppendFrame / FlushCommit / CommitMarkerSynced = the model's faults 1 / 2 / 3).
+/// scratch directory (removed on drop): `$VERIF_SCRATCH`, else `/dev/shm` (the filesystem store syncs
+/// after every commit marker; on a memory-backed directory the many crash copies stay cheap), else the temp dir
+struct Scratch(std::path::PathBuf);
+static DIR_SEQ: std::sync::atomic::AtomicU64 = std::sync::atomic::AtomicU64::new(0);
+impl Scratch {
+    fn new(label: &str) -> Scratch {
+        let base = match std::env::var("VERIF_SCRATCH") {
+            Ok(d) => std::path::PathBuf::from(d),
+            Err(_) => {
+                let shm = std::path::PathBuf::from("/dev/shm");
+                if shm.is_dir() {
+                    shm
+                } else {
+                    std::env::temp_dir()
+                }
+            }
+        };
+        let n = DIR_SEQ.fetch_add(1, std::sync::atomic::Ordering::SeqCst);
+        let d = base.join(format!("echo-verif-c17-{}-{}-{}", std::process::id(), label, n));
+        let _ = std::fs::remove_dir_all(&d);
+        Scratch(d)
+    }
+}
+impl Drop for Scratch {
+    fn drop(&mut self) {
+        let _ = std::fs::remove_dir_all(&self.0);
+    }
+}
+
+struct FsStore {
+    dir: Scratch,
+    inner: FilesystemWalStore,
+    armed: u64,
+}
+
+fn seg1() -> WalSegmentId {
+    WalSegmentId::from_raw(1)
+}
+
+fn copy_dir(from: &Path, to: &Path) -> Result<(), String> {
+    std::fs::create_dir_all(to).map_err(|e| format!("mkdir: {e}"))?;
+    for en in std::fs::read_dir(from).map_err(|e| format!("readdir: {e}"))? {
+        let en = en.map_err(|e| format!("readdir: {e}"))?;
+        let p = en.path();
+        let q = to.join(en.file_name());
+        if p.is_dir() {
+            copy_dir(&p, &q)?;
+        } else {
+            std::fs::copy(&p, &q).map_err(|e| format!("copy: {e}"))?;
+        }
+    }
+    Ok(())
+}
+
+impl FsStore {
+    fn new() -> Result<FsStore, String> {
+        let dir = Scratch::new("c17fs");
+        let mut inner = FilesystemWalStore::open(&dir.0, seg1()).map_err(|e| format!("fs open: {e:?}"))?;
+        inner.acquire_writer_epoch(epoch_request()).map_err(|e| format!("fs epoch: {e:?}"))?;
+        Ok(FsStore { dir, inner, armed: 0 })
+    }
+    fn arm(&mut self, k: u64) {
+        self.armed = if (1..=3).contains(&k) { k } else { 0 };
+        self.inner.replace_fault_plan_for_test(match k {
+            1 => FilesystemWalFaultPlan::fail_next(FilesystemWalFaultTarget::AppendFrame),
+            2 => FilesystemWalFaultPlan::fail_next(FilesystemWalFaultTarget::FlushCommit),
+            3 => FilesystemWalFaultPlan::fail_next(FilesystemWalFaultTarget::CommitMarkerSynced),
+            _ => FilesystemWalFaultPlan::default(),
+        });
+    }
+    /// process death now: what is on disk, optionally with the segment file cut to `cut` bytes;
+    /// then writable WAL recovery and coordinator recovery on the copy.
+    fn crash_recover(&self, cut: Option<usize>) -> Result<Result<(Coord, usize), String>, String> {
+        let copy = Scratch::new("c17fs-crash");
+        copy_dir(&self.dir.0, &copy.0)?;
+        if let Some(m) = cut {
+            let rel = self.inner.segment_path();
+            let rel = rel.strip_prefix(&self.dir.0).map_err(|e| format!("segment path: {e}"))?.to_path_buf();
+            let f = std::fs::OpenOptions::new().write(true).open(copy.0.join(rel)).map_err(|e| format!("open seg: {e}"))?;
+            f.set_len(m as u64).map_err(|e| format!("truncate: {e}"))?;
+        }
+        if let Err(e) = recover_filesystem_store(&copy.0, RecoveryAccessMode::Writable) {
+            return Ok(Err(format!("wal recovery: {e:?}")));
+        }
+        let st = match FilesystemWalStore::open(&copy.0, seg1()) {
+            Ok(s) => s,
+            Err(e) => return Ok(Err(format!("open: {e:?}"))),
+        };
+        Ok(match Coord::recover(&st) {
+            Ok(c) => Ok((c, st.read_commits().len())),
+            Err(e) => Err(format!("coordinator: {}", err_name(&e))),
+        })
+    }
+    fn segment_bytes(&self) -> Vec<u8> {
+        std::fs::read(self.inner.segment_path()).unwrap_or_default()
+    }
+}
+
+enum AnyStore {
+    Mem(FaultStore),
+    Fs(Box<FsStore>),
+}
+
+impl AnyStore {
+    fn arm(&mut self, k: u64) {
+        match self {
+            AnyStore::Mem(m) => m.fault = k,
+            AnyStore::Fs(f) => f.arm(k),
+        }
+    }
+    fn armed(&self) -> u64 {
+        match self {
+            AnyStore::Mem(m) => m.fault,
+            AnyStore::Fs(f) => f.armed,
+        }
+    }
+    /// a transition reached `append_transaction`: a one-shot fault (if armed) has fired
+    fn consumed(&mut self) {
+        if let AnyStore::Fs(f) = self {
+            f.armed = 0;
+        }
+    }
+    fn trunc(&mut self) -> Result<(), String> {
+        match self {
+            AnyStore::Mem(m) => recover_in_memory_store(&mut m.inner, RecoveryAccessMode::Writable).map(|_| ()).map_err(|e| format!("{e:?}")),
+            AnyStore::Fs(f) => recover_filesystem_store(&f.dir.0, RecoveryAccessMode::Writable).map(|_| ()).map_err(|e| format!("{e:?}")),
+        }
+    }
+    fn fork(&self) -> Result<AnyStore, String> {
+        match self {
+            AnyStore::Mem(m) => Ok(AnyStore::Mem(m.clone())),
+            AnyStore::Fs(_) => Err("the filesystem store is not forked (the in-memory world is the reference)".into()),
+        }
+    }
+    fn port(&mut self) -> &mut dyn WalStorePort {
+        match self {
+            AnyStore::Mem(m) => m,
+            AnyStore::Fs(f) => &mut f.inner,
+        }
+    }
+    fn port_ref(&self) -> &dyn WalStorePort {
+        match self {
+            AnyStore::Mem(m) => m,
+            AnyStore::Fs(f) => &f.inner,
+        }
+    }
+}
+
+impl WalStorePort for AnyStore {
+    fn acquire_writer_epoch(&mut self, request: WriterEpochRequest) -> Result<WriterEpoch, WalStoreError> {
+        self.port().acquire_writer_epoch(request)
+    }
+    fn append_frame(&mut self, epoch_id: WriterEpochId, frame: WalFrame) -> Result<(), WalStoreError> {
+        self.port().append_frame(epoch_id, frame)
+    }
+    fn flush_commit(&mut self, epoch_id: WriterEpochId, commit: WalTransactionCommit) -> Result<(), WalStoreError> {
+        self.port().flush_commit(epoch_id, commit)
+    }
+    fn flush_external_action_commit(
+        &mut self,
+        epoch_id: WriterEpochId,
+        commit: WalTransactionCommit,
+        capability: ExternalActionCoordinatorCapability,
+    ) -> Result<(), WalStoreError> {
+        self.port().flush_external_action_commit(epoch_id, commit, capability)
+    }
+    fn read_frames(&self) -> Vec<WalFrame> {
+        self.port_ref().read_frames()
+    }
+    fn read_commits(&self) -> Vec<WalTransactionCommit> {
+        self.port_ref().read_commits()
+    }
+    fn read_snapshot(&self) -> Result<warp_core::causal_wal::WalStoreSnapshot, WalStoreError> {
+        self.port_ref().read_snapshot()
+    }
+    fn seal_segment(&mut self, epoch_id: WriterEpochId, segment_id: WalSegmentId) -> Result<WalSegmentSeal, WalStoreError> {
+        self.port().seal_segment(epoch_id, segment_id)
+    }
+    fn truncate_tail_after(&mut self, after_lsn: Lsn) -> Result<(), WalStoreError> {
+        self.port().truncate_tail_after(after_lsn)
+    }
+    fn publish_manifest(&mut self, epoch_id: WriterEpochId, manifest: WalManifest) -> Result<(), WalStoreError> {
+        self.port().publish_manifest(epoch_id, manifest)
+    }
+    fn close_epoch(&mut self, epoch_id: WriterEpochId) -> Result<(), WalStoreError> {
+        self.port().close_epoch(epoch_id)
+    }
 }
 
 fn context(label: &str, n: u64) -> ExternalActionTransactionContextV1 {
@@ -345,9 +541,8 @@ struct Shadows {
     b: Coord,
 }
 
-#[derive(Clone)]
 struct World {
-    store: FaultStore,
+    store: AnyStore,
     coord: Coord,
     txn: u64,
 }
@@ -386,9 +581,19 @@ fn build_shadows(case: &Case) -> Result<Shadows, String> {
 
 impl World {
     fn new() -> Result<World, String> {
-        let store = new_store()?;
+        let store = AnyStore::Mem(new_store()?);
         let coord = Coord::recover(&store).map_err(|e| format!("genesis recover: {e:?}"))?;
         Ok(World { store, coord, txn: 0 })
+    }
+
+    fn new_fs() -> Result<World, String> {
+        let store = AnyStore::Fs(Box::new(FsStore::new()?));
+        let coord = Coord::recover(&store).map_err(|e| format!("genesis recover (fs): {e:?}"))?;
+        Ok(World { store, coord, txn: 0 })
+    }
+
+    fn fork(&self) -> Result<World, String> {
+        Ok(World { store: self.store.fork()?, coord: self.coord.clone(), txn: self.txn })
     }
 
     fn ord(&self, d: &Hash) -> String {
@@ -413,6 +618,20 @@ impl World {
     }
 
     fn exec(&mut self, case: &Case, sh: &Shadows, op: &Op) -> Result<(String, Res), String> {
+        let r = self.exec_inner(case, sh, op)?;
+        let transition = matches!(op, Op::Req { .. } | Op::Claim { .. } | Op::Settle { .. });
+        let reached_append = match &r.1 {
+            Res::Err(n) => n == "WalStore",
+            Res::Plain => false,
+            _ => true,
+        };
+        if transition && reached_append {
+            self.store.consumed();
+        }
+        Ok(r)
+    }
+
+    fn exec_inner(&mut self, case: &Case, sh: &Shadows, op: &Op) -> Result<(String, Res), String> {
         let e = |e: PErr, at: &str| {
             let n = err_name(&e);
             (format!("E:{n}{at}"), Res::Err(format!("{n}{at}")))
@@ -515,12 +734,12 @@ impl World {
                 }
                 Err(x) => e(x, ""),
             },
-            Op::Trunc => match recover_in_memory_store(&mut self.store.inner, RecoveryAccessMode::Writable) {
-                Ok(_) => ("ok".to_string(), Res::Plain),
-                Err(x) => (format!("E:trunc-{x:?}").replace(' ', "_"), Res::Err("trunc".into())),
+            Op::Trunc => match self.store.trunc() {
+                Ok(()) => ("ok".to_string(), Res::Plain),
+                Err(x) => (format!("E:trunc-{x}").replace(' ', "_"), Res::Err("trunc".into())),
             },
             Op::Fault(k) => {
-                self.store.fault = *k;
+                self.store.arm(*k);
                 ("ok".to_string(), Res::Plain)
             }
             Op::Dump => (self.dump(case), Res::Plain),
@@ -574,9 +793,17 @@ impl World {
 }
 
 fn imp_ext(t: &mut Toks) -> Result<String, String> {
+    imp_on(t, false)
+}
+
+fn imp_fs(t: &mut Toks) -> Result<String, String> {
+    imp_on(t, true)
+}
+
+fn imp_on(t: &mut Toks, fs: bool) -> Result<String, String> {
     let case = parse_case(t)?;
     let sh = build_shadows(&case)?;
-    let mut w = World::new()?;
+    let mut w = if fs { World::new_fs()? } else { World::new()? };
     let mut outs = Vec::new();
     for op in &case.ops {
         outs.push(w.exec(&case, &sh, op)?.0);
@@ -607,7 +834,7 @@ fn stage(c: &Coord, r: &ExternalActionRequestV1) -> Result<u8, String> {
 }
 
 /// (request id, kind) of every committed external-action transaction, in log order
-fn log_steps(store: &FaultStore) -> Vec<(Hash, u8)> {
+fn log_steps(store: &AnyStore) -> Vec<(Hash, u8)> {
     let frames = store.read_frames();
     let mut out = Vec::new();
     for c in store.read_commits() {
@@ -629,10 +856,27 @@ fn log_steps(store: &FaultStore) -> Vec<(Hash, u8)> {
     out
 }
 
-fn oracle_ext(t: &mut Toks, _tier: Tier) -> Result<OracleOut, String> {
+fn oracle_ext(t: &mut Toks, tier: Tier) -> Result<OracleOut, String> {
+    oracle_on(t, tier, false)
+}
+
+/// the same oracle, with the REAL filesystem store driven in lockstep with the in-memory one:
+/// same answers, same coordinator, same commit digests; process death after every operation and
+/// (after store faults and at the end) at segment-file byte cuts.
+fn oracle_fs(t: &mut Toks, tier: Tier) -> Result<OracleOut, String> {
+    oracle_on(t, tier, true)
+}
+
+fn oracle_on(t: &mut Toks, tier: Tier, with_fs: bool) -> Result<OracleOut, String> {
     let case = parse_case(t)?;
     let sh = build_shadows(&case)?;
     let mut w = World::new()?;
+    let mut wf = if with_fs { Some(World::new_fs()?) } else { None };
+    // coordinator recovered from the in-memory store when it held exactly k commits
+    let mut snaps: BTreeMap<usize, Coord> = BTreeMap::new();
+    snaps.insert(0, w.coord.clone());
+    let mut n_cuts = 0u32;
+    let mut n_scans = 0u32;
     let mut o = OracleOut::default();
     let fail = |o: &mut OracleOut, k: &str, what: String| {
         if !o.fails.iter().any(|(kk, _)| kk == k) {
@@ -646,9 +890,22 @@ fn oracle_ext(t: &mut Toks, _tier: Tier) -> Result<OracleOut, String> {
     let mut recorded: BTreeMap<Hash, Hash> = BTreeMap::new();
     let (mut n_grant, mut n_err, mut n_fault, mut n_recover) = (0u32, 0u32, 0u32, 0u32);
     for (i, op) in case.ops.iter().enumerate() {
-        let before = w.clone();
-        let armed = before.store.fault;
-        let (_, res) = w.exec(&case, &sh, op)?;
+        let before = w.fork()?;
+        let armed = before.store.armed();
+        let (out_mem, res) = w.exec(&case, &sh, op)?;
+        if let Some(wf) = wf.as_mut() {
+            let (out_fs, _) = wf.exec(&case, &sh, op)?;
+            if out_fs != out_mem {
+                fail(&mut o, "C17.fs-store-answer-differs", format!("op {i}: filesystem store run answers `{out_fs}`, in-memory run `{out_mem}`"));
+            }
+            if wf.coord != w.coord {
+                fail(&mut o, "C17.fs-store-coordinator-differs", format!("op {i}: coordinator over the filesystem store differs from the one over the in-memory store"));
+            }
+            let cd = |s: &AnyStore| s.read_commits().iter().map(|c| c.commit_digest).collect::<Vec<_>>();
+            if cd(&wf.store) != cd(&w.store) {
+                fail(&mut o, "C17.fs-store-log-differs", format!("op {i}: committed transactions on disk differ from the in-memory log"));
+            }
+        }
         let transition = matches!(op, Op::Req { .. } | Op::Claim { .. } | Op::Settle { .. });
         let commits_b = before.store.read_commits();
         let commits_a = w.store.read_commits();
@@ -772,9 +1029,9 @@ fn oracle_ext(t: &mut Toks, _tier: Tier) -> Result<OracleOut, String> {
             }
         }
         // --- stop here and recover: equals the uninterrupted run at this point
-        let mut crashed = w.clone();
-        crashed.store.fault = 0;
-        if recover_in_memory_store(&mut crashed.store.inner, RecoveryAccessMode::Writable).is_err() {
+        let mut crashed = w.fork()?;
+        crashed.store.arm(0);
+        if crashed.store.trunc().is_err() {
             fail(&mut o, "C17.recovery-failed", format!("op {i}: WAL recovery of the store failed"));
             continue;
         }
@@ -788,8 +1045,8 @@ fn oracle_ext(t: &mut Toks, _tier: Tier) -> Result<OracleOut, String> {
                     w.coord.clone()
                 } else if transition && (1..=3).contains(&armed) && matches!(&res, Res::Err(n) if n == "WalStore") {
                     if armed == 3 {
-                        let mut u = before.clone();
-                        u.store.fault = 0;
+                        let mut u = before.fork()?;
+                        u.store.arm(0);
                         let _ = u.exec(&case, &sh, op)?;
                         u.coord
                     } else {
@@ -830,6 +1087,48 @@ fn oracle_ext(t: &mut Toks, _tier: Tier) -> Result<OracleOut, String> {
                         fail(&mut o, "C17.request-lost", format!("op {i}: a recorded request is gone after recovery"));
                     }
                 }
+                snaps.entry(crashed.store.read_commits().len()).or_insert_with(|| rc.clone());
+                if let Some(AnyStore::Fs(f)) = wf.as_ref().map(|x| &x.store) {
+                    // process death right here (mid-transaction when a store fault just fired)
+                    match f.crash_recover(None)? {
+                        Err(m) => fail(&mut o, "C17.fs-recovery-failed", format!("op {i}: recovery of the on-disk store failed: {m}")),
+                        Ok((fc, _)) => {
+                            if fc != rc {
+                                fail(&mut o, "C17.fs-recovered-differs", format!("op {i}: coordinator recovered from disk differs from the one recovered from the in-memory store"));
+                            }
+                        }
+                    }
+                    // ... and with the segment file cut at record boundaries +-1 and in between
+                    let store_faulted = transition && (1..=3).contains(&armed) && matches!(&res, Res::Err(n) if n == "WalStore");
+                    let scan = i + 1 == case.ops.len() || (store_faulted && (tier == Tier::Thorough || n_scans < 2));
+                    if scan {
+                        n_scans += 1;
+                        let bytes = f.segment_bytes();
+                        let ends = crate::c10::record_ends(&bytes);
+                        let stride = if tier == Tier::Thorough { 5 } else { 23 };
+                        let mut last_k = 0usize;
+                        for m in crate::c10::cut_set(bytes.len(), stride, &ends) {
+                            n_cuts += 1;
+                            match f.crash_recover(Some(m))? {
+                                Err(e) => fail(&mut o, "C17.fs-cut-recovery-failed", format!("op {i}: segment cut at byte {m} of {}: {e}", bytes.len())),
+                                Ok((fc, k)) => {
+                                    if k < last_k {
+                                        fail(&mut o, "C17.fs-cut-not-monotone", format!("op {i}: cut {m} recovers {k} commits, a shorter cut recovered {last_k}"));
+                                    }
+                                    last_k = k;
+                                    match snaps.get(&k) {
+                                        Some(sc) if sc == &fc => {}
+                                        Some(_) => fail(&mut o, "C17.fs-cut-recovered-differs", format!("op {i}: segment cut at byte {m}: recovered coordinator ({k} commits) is not the uninterrupted run's at that point")),
+                                        None => fail(&mut o, "C17.fs-cut-unknown-prefix", format!("op {i}: segment cut at byte {m} recovers {k} commits, a log the run never had")),
+                                    }
+                                }
+                            }
+                        }
+                        if last_k != crashed.store.read_commits().len() {
+                            fail(&mut o, "C17.fs-cut-lost-commit", format!("op {i}: the uncut segment recovers {last_k} commits, the store holds {}", crashed.store.read_commits().len()));
+                        }
+                    }
+                }
             }
         }
     }
@@ -843,6 +1142,9 @@ fn oracle_ext(t: &mut Toks, _tier: Tier) -> Result<OracleOut, String> {
     }
     if n_recover > 0 {
         o.tags.push("crash-points".into());
+    }
+    if n_cuts > 0 {
+        o.tags.push("fs-byte-cuts".into());
     }
     if stages.iter().any(|s| *s == 3) {
         o.tags.push("settled".into());
@@ -881,7 +1183,8 @@ fn cand_tail(rng: &mut Rng, max_bytes: u64, valid: bool) -> String {
     let mut sch = 0;
     let mut bas = 0;
     let mut dig = 1;
-    let mut len = rng.below(max_bytes + 1);
+    // at the exact byte budget one time in three
+    let mut len = if rng.chance(1, 3) { max_bytes } else { rng.below(max_bytes + 1) };
     let mut sev = small_id(rng.range(1, 3));
     let mut eev = small_id(rng.range(1, 3));
     if !valid {
@@ -891,7 +1194,7 @@ fn cand_tail(rng: &mut Rng, max_bytes: u64, valid: bool) -> String {
             2 => sch = 1,
             3 => bas = 1,
             4 => dig = 0,
-            5 => len = max_bytes + 1 + rng.below(3),
+            5 => len = max_bytes + 1 + if rng.chance(1, 2) { 0 } else { rng.below(3) },
             6 => sev = [0; 32],
             _ => eev = [0; 32],
         }
@@ -901,7 +1204,14 @@ fn cand_tail(rng: &mut Rng, max_bytes: u64, valid: bool) -> String {
 }
 
 fn gen_ext(rng: &mut Rng, tier: Tier) -> Vec<String> {
-    let n_cases = if tier == Tier::Thorough { 1500 } else { 130 };
+    gen_cases(rng, tier, if tier == Tier::Thorough { 1500 } else { 130 })
+}
+
+fn gen_fs(rng: &mut Rng, tier: Tier) -> Vec<String> {
+    gen_cases(rng, tier, if tier == Tier::Thorough { 200 } else { 40 })
+}
+
+fn gen_cases(rng: &mut Rng, tier: Tier, n_cases: u64) -> Vec<String> {
     let mut out = Vec::new();
     for case_no in 0..n_cases {
         let ops_n = [digest("c17:op:a"), digest("c17:op:b")];
@@ -959,6 +1269,10 @@ fn gen_ext(rng: &mut Rng, tier: Tier) -> Vec<String> {
         let mut down = false; // coordinator needs recovery
         let mut dirty = false;
         let mut dumps = 0;
+        // one case in six: the process is dropped and recovered after EVERY operation
+        let restart_every = case_no % 6 == 3;
+        // the last lifecycle step sent for each request (replayed verbatim as a retry of that step)
+        let mut last_step: Vec<Vec<String>> = vec![Vec::new(); nr];
         let advance = |rng: &mut Rng, sk: &mut Vec<Sketch>, r: usize, reqs: &Vec<ExternalActionRequestV1>, commit: bool| -> String {
             let mb = reqs[r].budget.max_settlement_bytes;
             match sk[r].stage {
@@ -998,12 +1312,29 @@ fn gen_ext(rng: &mut Rng, tier: Tier) -> Vec<String> {
             let r = rng.below(nr as u64) as usize;
             let mb = reqs[r].budget.max_settlement_bytes;
             let roll = rng.below(100);
+            if restart_every && !ops.is_empty() && ops.last().is_some_and(|s| s != "recover") {
+                if dirty {
+                    ops.push("trunc".to_string());
+                    dirty = false;
+                }
+                ops.push("recover".to_string());
+                down = false;
+            }
+            if roll < 8 && !last_step[r].is_empty() {
+                // retry of an earlier step of this request, verbatim (request / claim / settlement)
+                let s = rng.pick(&last_step[r]).clone();
+                ops.push(s);
+                continue;
+            }
             if roll < 42 {
                 if !down && sk[r].stage == 2 && sk[r].same && rng.chance(1, 2) {
                     // a grant for the identical claim, but issued by another store (other commit)
                     ops.push(format!("settle {r} 1 {r} {}", cand_tail(rng, mb, true)));
                 }
                 let s = advance(rng, &mut sk, r, &reqs, !down);
+                if !s.starts_with("retry") {
+                    last_step[r].push(s.clone());
+                }
                 ops.push(s);
             } else if roll < 54 {
                 // invalid claim
@@ -1047,6 +1378,11 @@ fn gen_ext(rng: &mut Rng, tier: Tier) -> Vec<String> {
                 if !down {
                     let k = rng.range(1, 3);
                     ops.push(format!("fault {k}"));
+                    if rng.chance(1, 4) {
+                        // a rejected operation first: the armed fault must survive it untouched
+                        ops.push(format!("claim {r} 0 {r} {} 0 0 {}", hex(&adapters[2]), hex(&leases[0])));
+                        ops.push(format!("{} {r}", rng.pick(&["rr", "cg", "as"])));
+                    }
                     let s = advance(rng, &mut sk, r, &reqs, k == 3);
                     let is_transition = !s.starts_with("retry");
                     ops.push(s);
